@@ -7,6 +7,13 @@ NOTES = ("Model-based verification with explicit TLA+ specifications (spec/*.tla
 
 CHECKS = [
     {
+        "property_id": "C10",
+        "design_ref": "DESIGN.md §4 C10",
+        "technique": "TLA+ model Listeners.tla (listen/_bisect on a microsecond grid vs contract) checked by TLC over all sign patterns; real Speaker driven on the same grid and its streams judged by TLC (ListenersTrace.tla); recorded traces of the physical listeners validated by a TLA+ trace specification (PhysListenersTrace.tla)",
+        "text": "TLC checks the implementation-shaped listen()/_bisect() (timedelta halving, list order, sorted events, clear on new pass) against the contract (sound/complete w.r.t. sampling, between, sharp, label = direction, ordered, fresh after clear) for every pattern of <=3 sign flips; the same pattern sets run through the real AnalyticalPropagator.iter and Ephem.iter (dates and range modes, listener objects re-used in a second pass) and every real stream is judged with the contract operators. Physical listeners (Node, Apside, Anomaly x4, Light umbra/penumbra, Terminator, StationSignal/Max/Mask, RadialVelocity): streams of real iterations (SGP4, Kepler, KeplerNum, Ephem; ISS, Molniya, LEO, GEO; steps 45 s..900 s; two passes with the same listener objects) are recorded with the sign of each listener's own function and guard at every sample and around every event, and a TLA+ trace machine decides where events must and must not be, their order, interval, sharpness (8 us) and direction labels.",
+        "level_note": "Not decided: closed-form Keplerian event times and umbra/penumbra against an independent conical shadow model (numeric; only soundness/sharpness w.r.t. the listener's own function). Quantity exactly zero at a sample is outside the property. Pattern replay is a seeded sample of the exhaustive model in the quick tier. Trusted: TLC, the recorder (calls the listeners' own __call__ on yielded samples, two-body Taylor shift of +-8 us around events).",
+    },
+    {
         "property_id": "C08",
         "design_ref": "DESIGN.md §4 C08",
         "technique": "TLA+ model Propagation.tla (call-history state machine + RangeOps iteration contract + implementation-shaped KeplerNum/Ephem date models) enumerated by TLC; every history replayed on real orbits/propagators/ephemerides of 7 kinds",
@@ -31,5 +38,5 @@ CHECKS = [
 
 _PENDING = "check not built yet in this session (design in DESIGN.md §4); will be claimed once its TLA+ model and conformance harness exist"
 NOT_APPLICABLE = [
-    {"property_id": f"C{i:02d}", "reason": _PENDING} for i in range(1, 20) if i not in (3, 8)
+    {"property_id": f"C{i:02d}", "reason": _PENDING} for i in range(1, 20) if i not in (3, 8, 10)
 ]
